@@ -58,7 +58,17 @@ def f1(model: Model, rep: Report):
                   what="the flat graph is not rebuilt from the complete operation listing", detail="source")
         elem = ("bound", "for", lp.node.lineno, show(lp.term))
         graph = stores[0][3]
-        fresh = graph[0] in ("new", "call") and "CircuitGraphBranch" in show(graph) and not subterms(graph, lambda y: y == s)
+        rebound = None
+        if graph[0] == "after" and graph[1] in lp.extra["init_env"]:
+            # ``g = CircuitGraphBranch.add_to_graph(g, op)`` in the loop: add_to_graph hands back the graph it was given (C01.R6), so the name keeps
+            # denoting the graph it was bound to before the loop
+            rebound = ("loopvar", graph[1], lp.node.lineno)
+            same = all(bp.env.get(graph[1]) == rebound or
+                       (find_calls(bp.env.get(graph[1]), "add_to_graph") and bp.env.get(graph[1])[0] == "call" and
+                        (dict(bp.env.get(graph[1])[3]).get("graph", (list(bp.env.get(graph[1])[2]) + [None])[0]) == rebound))
+                       for bp in lp.extra["paths"])
+            graph = lp.extra["init_env"][graph[1]] if same else graph
+        fresh = graph[0] in ("new", "call", "var") and "CircuitGraphBranch" in show(graph) and not subterms(graph, lambda y: y == s)
         bad = []
         for bp in lp.extra["paths"]:
             calls = [c for e in bp.events if e.kind in ("effect", "assign") and e.term is not None for c in find_calls(e.term, "add_to_graph")]
@@ -72,7 +82,7 @@ def f1(model: Model, rep: Report):
             o = kw.get("operation", pos[1] if len(pos) > 1 else None)
             if o != elem:
                 bad.append(f"adds {show(o) if o else None} instead of the listed element")
-            if g != graph and not (g is not None and g[0] in ("loopvar", "after")):
+            if g != graph and g != rebound and not (g is not None and g[0] in ("loopvar", "after")):
                 bad.append("adds to another graph than the one that is bound afterwards")
         rep.check(not bad and fresh, "C11.F1", construct + "[one add per element]", f.loc, found="; ".join(bad) or ("fresh graph, one add per element" if fresh else f"graph is {show(graph)}"),
                   required="exactly one add_to_graph(fresh graph, element) per listed element, no filter", what="flattening loses, duplicates or filters leaf operations: " + "; ".join(bad), detail="adds")
@@ -109,9 +119,12 @@ def f3(model: Model, rep: Report, rule: str):
     n = 0
     for p in [q for q in ps if q.exit == "return"]:
         n += 1
-        lp = loop_of(p)
+        all_loops = [e for e in p.events if e.kind == "loop"]
+        # the round loop: the one that adds to the result (other loops may prepare tables)
+        adding = [e for e in all_loops if any(emits(Path(TRUE, bp.events, bp.env), p.value) for bp in e.extra["paths"])]
+        lp = adding[0] if len(adding) == 1 else (loop_of(p) if not adding else None)
         if lp is None:
-            raise AnalysisError("multi-round constructor: no round loop")
+            raise AnalysisError("multi-round constructor: no single round loop")
         rep.check(lp.term == cycles, rule, "multi_round[rounds]", f.loc, found=show(lp.term), required="every entry of qec_cycles, in order", what="not every requested round count gets a block", detail="rounds")
         elem = ("bound", "for", lp.node.lineno, show(lp.term))
         built = ("call", ("fn", "circuit_constructors.construct_repetition_code_circuit"), (), (("description", desc), ("initial_state", init), ("qec_cycles", elem)))
@@ -146,7 +159,7 @@ def f3(model: Model, rep: Report, rule: str):
         ok = len(tail) == 1 and tail[0].term[0] == "call" and tail[0].term[1] == ("fn", "circuit_constructors.construct_calibration_circuit")
         after = False
         if ok:
-            idx_loop = [i for i, e in enumerate(p.events) if e.kind == "loop"][0]
+            idx_loop = [i for i, e in enumerate(p.events) if e is lp][0]
             idx_add = [i for i, e in enumerate(p.events) if e.kind == "effect" and e.term is not None and "construct_calibration_circuit" in show(e.term) and find_calls(e.term, "add")]
             after = bool(idx_add) and idx_add[-1] > idx_loop
             cd = dict(tail[0].term[3]).get("description")
